@@ -47,7 +47,11 @@ func VerifC08_PrinterDegenerate() {
 func VerifC08_ConditionsDegenerate() {
 	c := &openfgav1.Condition{Name: "c"}
 	key := "c"
-	switch zzverif.Choose("condition", 7) {
+	switch zzverif.Choose("condition", 9) {
+	case 7:
+		c.Parameters = map[string]*openfgav1.ConditionParamTypeRef{"p": {TypeName: openfgav1.ConditionParamTypeRef_TYPE_NAME_LIST, GenericTypes: []*openfgav1.ConditionParamTypeRef{}}}
+	case 8:
+		c.Parameters = map[string]*openfgav1.ConditionParamTypeRef{"p": {TypeName: openfgav1.ConditionParamTypeRef_TYPE_NAME_MAP, GenericTypes: make([]*openfgav1.ConditionParamTypeRef, 0, 2)}}
 	case 0:
 		c = nil
 	case 1:
